@@ -320,6 +320,18 @@ class FileDescriptor(_ConsumerMixin, _LogOwner):
         # ITransport.getPeer
         raise NotImplementedError()
 
+    def registerProducer(self, producer, streaming):
+        """
+        Register to receive data from a producer.
+
+        In addition to L{_ConsumerMixin.registerProducer}: a streaming (push)
+        producer which is registered while the send buffer is already full is
+        paused immediately, exactly as it would be by its next C{write}; it is
+        resumed when the buffer has been flushed.
+        """
+        _ConsumerMixin.registerProducer(self, producer, streaming)
+        self._maybePauseProducer()
+
     def _isSendBufferFull(self):
         """
         Determine whether the user-space send buffer for this transport is full
